@@ -181,7 +181,9 @@ func (p *Prog) indexFuncs() {
 
 // IsLib reports whether fn (after Origin resolution) is declared in a library package.
 func (p *Prog) IsLib(fn *ssa.Function) bool {
-	fn = origin(fn)
+	if o := fn.Origin(); o != nil {
+		fn = o
+	}
 	for fn.Parent() != nil {
 		fn = fn.Parent()
 	}
@@ -198,6 +200,9 @@ func (p *Prog) IsLib(fn *ssa.Function) bool {
 func origin(fn *ssa.Function) *ssa.Function {
 	if fn == nil {
 		return nil
+	}
+	if instMode && fn.Blocks != nil {
+		return fn // thorough tier: analyse the instantiated body itself
 	}
 	if o := fn.Origin(); o != nil {
 		return o
@@ -228,7 +233,9 @@ func (p *Prog) RelPkg(path string) string {
 // FuncKey is the stable construct name of a function: "lists/arraylist.(*List).Add",
 // "containers.GetSortedValues", "maps/linkedhashmap.(*Map).FromJSON$1".
 func (p *Prog) FuncKey(fn *ssa.Function) string {
-	fn = origin(fn)
+	if o := fn.Origin(); o != nil {
+		fn = o
+	}
 	if fn.Parent() != nil {
 		// anonymous function: parent key + $n
 		name := fn.Name()
